@@ -361,3 +361,60 @@ func VerifC04MapValueRoot() {
 		}
 	}
 }
+
+// VerifC04RejectedIndex: two Root rows reference the same Child; a transaction drops one of the references and is
+// then rejected (for a dangling strong reference, or a duplicate index value); the committed reference index must be
+// what it was, and a follow-up transaction dropping the other reference must behave accordingly.
+func VerifC04RejectedIndex() {
+	db := NewDB()
+	kids := uuidSet([]string{fix.C1})
+	res := Run(db,
+		ovsdb.Operation{Op: ovsdb.OperationInsert, Table: "Child", UUID: fix.C1, Row: ovsdb.Row{"name": "c"}},
+		ovsdb.Operation{Op: ovsdb.OperationInsert, Table: "Root", UUID: fix.U1, Row: ovsdb.Row{"name": "r1", "kids": kids}},
+		ovsdb.Operation{Op: ovsdb.OperationInsert, Table: "Root", UUID: fix.U2, Row: ovsdb.Row{"name": "r2", "kids": kids}})
+	rt.Assert(!Failed(res), "C04: a consistent set of rows is accepted")
+	refsOK := func(want []string) bool {
+		refs, err := db.GetReferences("V", "Child", fix.C1)
+		if err != nil {
+			return false
+		}
+		got := refs[database.ReferenceSpec{ToTable: "Child", FromTable: "Root", FromColumn: "kids"}][fix.C1]
+		if !rt.Symbolic() {
+			rt.Note("references", got)
+		}
+		return noDup(got) && setEq(got, want)
+	}
+	rt.Assert(refsOK([]string{fix.U1, fix.U2}), "C04: the reference index lists both referring rows")
+	first := []string{fix.U1, fix.U2}[rt.Choose(2)]
+	drop := ovsdb.Operation{Op: ovsdb.OperationMutate, Table: "Root", Where: ByUUID(first),
+		Mutations: []ovsdb.Mutation{{Column: "kids", Mutator: ovsdb.MutateOperationDelete, Value: kids}}}
+	var bad ovsdb.Operation
+	switch rt.Choose(2) {
+	case 0:
+		bad = ovsdb.Operation{Op: ovsdb.OperationMutate, Table: "Root", Where: ByUUID(fix.U2),
+			Mutations: []ovsdb.Mutation{{Column: "kids", Mutator: ovsdb.MutateOperationInsert, Value: uuidSet([]string{fix.Dangling})}}}
+	case 1:
+		bad = ovsdb.Operation{Op: ovsdb.OperationInsert, Table: "Root", UUID: fix.U3, Row: ovsdb.Row{"name": "r1"}}
+	}
+	if rt.Choose(2) == 1 {
+		res = Run(db, drop, bad)
+		rt.Assert(Failed(res), "C04: the transaction is rejected")
+		rt.Assert(refsOK([]string{fix.U1, fix.U2}), "C04: a rejected transaction leaves the committed reference index as it was")
+	}
+	rt.Reach("ran")
+	// the same removal, alone, is accepted and leaves the other reference
+	res = Run(db, drop)
+	rt.Assert(!Failed(res), "C04: dropping one of two references is accepted")
+	other := fix.U1
+	if first == fix.U1 {
+		other = fix.U2
+	}
+	rt.Assert(refsOK([]string{other}), "C04: after one reference is dropped the index lists the other referring row")
+	kidsRows, _ := db.List("V", "Child")
+	rt.Assert(len(kidsRows) == 1, "C04: a row that is still referenced is kept")
+	res = Run(db, ovsdb.Operation{Op: ovsdb.OperationMutate, Table: "Root", Where: ByUUID(other),
+		Mutations: []ovsdb.Mutation{{Column: "kids", Mutator: ovsdb.MutateOperationDelete, Value: kids}}})
+	rt.Assert(!Failed(res), "C04: dropping the last reference is accepted")
+	kidsRows, _ = db.List("V", "Child")
+	rt.Assert(len(kidsRows) == 0, "C04: a row that is no longer referenced is garbage-collected")
+}
